@@ -305,7 +305,7 @@ func mkAdd(a, b string) string {
 		return a
 	}
 	// (+ off (- m off)) -> m
-	if strings.HasPrefix(b, "(- ") && strings.HasSuffix(b, " "+a+")") {
+	if strings.HasPrefix(b, "(- ") && strings.HasSuffix(b, " "+a+")") && len(b) > len(a)+5 {
 		inner := b[3 : len(b)-len(a)-2]
 		if balancedTerm(inner) {
 			return inner
